@@ -296,14 +296,23 @@ class ABytes:
             same_len = eq(self.ln, other.ln)
             if same_off is True:
                 return same_len
-            # equal if both empty or identical views; anything else is not decidable here
-            raise Unsupported("comparison of different views of a symbolic buffer")
+            # different views of one buffer: identical iff same offset and length, or both empty; other
+            # coincidences of content are possible but unknown -> uninterpreted predicate
+            f = z3.Function("same_bytes", z3.ArraySort(z3.IntSort(), z3.IntSort()), z3.IntSort(),
+                            z3.ArraySort(z3.IntSort(), z3.IntSort()), z3.IntSort(), z3.IntSort(), z3.BoolSort())
+            return And(same_len, Or(same_off, eq(self.ln, 0),
+                                    mkbool(f(self.arr, sym.int_t(self.off), other.arr, sym.int_t(other.off), sym.int_t(self.ln)))))
         if isinstance(other, (BytesVal, bytes, bytearray)):
             o = other if isinstance(other, BytesVal) else BytesVal.of(other)
             n = len(o.items)
             return And(eq(self.ln, n), *[eq(self.at(i), o.items[i]) for i in range(n)])
         if isinstance(other, ABytes):
-            raise Unsupported("comparison of two different symbolic buffers")
+            # different buffers: equal lengths and equal contents; content equality of two unrelated symbolic
+            # buffers is an uninterpreted predicate (nothing is known about it: either value is possible)
+            f = z3.Function("same_bytes", z3.ArraySort(z3.IntSort(), z3.IntSort()), z3.IntSort(),
+                            z3.ArraySort(z3.IntSort(), z3.IntSort()), z3.IntSort(), z3.IntSort(), z3.BoolSort())
+            return And(eq(self.ln, other.ln),
+                       mkbool(f(self.arr, sym.int_t(self.off), other.arr, sym.int_t(other.off), sym.int_t(self.ln))))
         return False
 
 
